@@ -1,4 +1,5 @@
 """C17 lambda statements never reuse stale closure values - StmtCache.tla over the lambda shapes of StmtShapes.tla (DESIGN 3.13, 4 C17)."""
+import json
 import random
 
 from checks import c02
@@ -6,7 +7,7 @@ from checks import stmtcache_driver as sd
 
 LEVEL = "model_checking"
 MANIFEST = dict(
-    text="The lambda shapes of StmtShapes.tla (closure scalar / list for IN / column / table / multi-step lambda_stmt / lambda criteria inside a "
+    text="The lambda shapes of StmtShapes.tla (closure scalar / list for IN / column / table / finished SQL expression / multi-step lambda_stmt / lambda criteria inside a "
          "plain select / with_loader_criteria lambda) with closure valuations incl. None, the empty list, a second column and a second table: the "
          "meaning F is that of the statement built directly from the current values; the cache key contains the non-literal closure values. "
          "StmtCache.tla is checked over groups of lambda shapes sharing an LRU cache of capacity 2 (Transparent, NoStaleValues, KeysSound, ...). "
@@ -19,7 +20,7 @@ MANIFEST = dict(
     note="trusted: TLC, SQLite, checks/stmt_common.py (each lambda lives at one source location, closure values arrive as function "
          "arguments); lambda analysis state (AnalyzedCode._fns, _closure_per_cache_key) is reset at the start of every walk = a fresh process",
     technique="TLA+ specs (StmtShapes.tla, StmtCache.tla) + TLC exhaustive over the cache graph; spec->code: shape table + replay of every edge")
-LAM = ["lscalar", "llist", "lcol", "ltab", "lmulti", "lwhere", "lcrit"]
+LAM = ["lscalar", "llist", "lcol", "ltab", "lmulti", "lwhere", "lcrit", "lexpr"]
 
 
 def name(c):
@@ -56,7 +57,7 @@ def main(chk):
                                graph_phase="skipped: the shape table already shows violations"), assumptions=[])
     # 3. invocation sequences over a shared cache
     depth = 5 if chk.quick else 6
-    groups = [[name(c) for c in g] for g in (["lscalar", "llist", "lcol", "ltab"], ["lmulti", "lwhere", "lcrit", "lscalar"])]
+    groups = [[name(c) for c in g] for g in (["lscalar", "llist", "lcol", "ltab"], ["lmulti", "lwhere", "lcrit", "lexpr"])]
     n_extra = 2 if chk.quick else 6
     while len(groups) < 2 + n_extra:
         g = sorted(rng.sample(LAM, 3 if chk.quick else 4))
@@ -83,9 +84,10 @@ def main(chk):
         chk.violation({"spec": "StmtCache", "action": a.get("a"), "kind": "conformance", "lambda": (a.get("sh") or "||").split("|")[2], "p": a.get("p"),
                        "hit": a.get("hit"), "field": m["mismatch"].split(":")[0], "deviation_modelled": dev},
                       "lambda invocation diverges from StmtCache.tla / the plain statement / the cache-less engine: " + m["mismatch"], m)
-    w = max(walks, key=len)
+    w = max(walks, key=c02.interesting(G))
     sample = [dict(group=runs[G.states[G.edges[w[0]][0]]["g"]]["group"],
-                   walk=["%s closure=%s -> %s" % (G.edges[ei][1]["sh"].split("|")[2], vals[G.edges[ei][1]["p"] - 1], G.edges[ei][1]["hit"]) for ei in w])]
+                   walk=["%s closure=%s -> %s" % (G.edges[ei][1]["sh"].split("|")[2], json.dumps(vals[G.edges[ei][1]["p"] - 1], sort_keys=True) if G.edges[ei][1]["p"] else "-",
+                                                   G.edges[ei][1]["hit"]) for ei in w])]
     return chk.finish(
         dict(states=rt.distinct + (rd.distinct if dev else 0) + sum(x["distinct"] for x in runs),
              transitions=rt.generated + (rd.generated if dev else 0) + sum(x["generated"] for x in runs), named_deviation_LamNoneBind=dev,
